@@ -187,9 +187,65 @@ Proof.
   intros. unfold defer_path. rewrite cut_at_firstn. apply prefix_b_firstn.
 Qed.
 
-(* a defer whose fields sit in ONE selection set has a consistent anchor *)
-Lemma anchor_single : forall s root chain, anchor_ok_b (collector_path s root [chain]) [chain] = true.
-Proof. intros. simpl. rewrite defer_path_prefix. reflexivity. Qed.
+(* ---- prefixes ---- *)
+Lemma prefix_b_nil : forall l, prefix_b [] l = true.
+Proof. destruct l; reflexivity. Qed.
+
+Lemma prefix_b_refl : forall l, prefix_b l l = true.
+Proof. induction l; simpl; auto. rewrite beqb_refl. auto. Qed.
+
+Lemma prefix_b_trans : forall a b c, prefix_b a b = true -> prefix_b b c = true -> prefix_b a c = true.
+Proof.
+  induction a as [|x a IH]; intros b c H1 H2; [apply prefix_b_nil|].
+  destruct b as [|y b]; simpl in H1; try discriminate.
+  destruct c as [|z c]; simpl in H2; try discriminate.
+  apply andb_true_iff in H1. destruct H1 as [Hxy H1]. apply andb_true_iff in H2. destruct H2 as [Hyz H2].
+  apply beqb_true in Hxy. apply beqb_true in Hyz. subst. simpl. rewrite beqb_refl. simpl. eapply IH; eauto.
+Qed.
+
+Lemma common_prefix_l : forall a b, prefix_b (common_prefix a b) a = true.
+Proof.
+  induction a as [|x a IH]; intros [|y b]; simpl; auto.
+  destruct (bytes_eqb x y) eqn:E; simpl; auto. rewrite beqb_refl. simpl. apply IH.
+Qed.
+
+Lemma common_prefix_r : forall a b, prefix_b (common_prefix a b) b = true.
+Proof.
+  induction a as [|x a IH]; intros [|y b]; simpl; auto.
+  destruct (bytes_eqb x y) eqn:E; simpl; auto. rewrite E. simpl. apply IH.
+Qed.
+
+Lemma fold_prefix_acc : forall (f : list anc -> list bytes) r acc,
+  prefix_b (fold_left (fun a c => common_prefix a (f c)) r acc) acc = true.
+Proof.
+  intros f r. induction r as [|c r IH]; intros acc; simpl; [apply prefix_b_refl|].
+  eapply prefix_b_trans; [apply IH | apply common_prefix_l].
+Qed.
+
+Lemma fold_prefix_each : forall (f : list anc -> list bytes) r acc c,
+  In c r -> prefix_b (fold_left (fun a c => common_prefix a (f c)) r acc) (f c) = true.
+Proof.
+  intros f r. induction r as [|c0 r IH]; intros acc c Hin; simpl in *; [contradiction|].
+  destruct Hin as [->|Hin].
+  - eapply prefix_b_trans; [apply fold_prefix_acc | apply common_prefix_r].
+  - apply IH. exact Hin.
+Qed.
+
+(* the recorded path is a prefix of the response position of EVERY selection set of the defer *)
+Lemma anchor_consistent : forall s root chains, anchor_ok_b (collector_path s root chains) chains = true.
+Proof.
+  intros s root chains. unfold anchor_ok_b. apply forallb_forall. intros c Hin.
+  destruct chains as [|c0 r]; [contradiction|]. simpl.
+  eapply prefix_b_trans; [| apply (defer_path_prefix s root c)].
+  destruct Hin as [<-|Hin].
+  - apply fold_prefix_acc.
+  - apply (fold_prefix_each (defer_path s root)). exact Hin.
+Qed.
+
+(* a defer whose fields sit in ONE selection set: both versions agree *)
+Lemma anchor_single : forall s root chain,
+  collector_path s root [chain] = defer_path s root chain /\ collector_path_v0 s root [chain] = defer_path s root chain.
+Proof. intros. split; reflexivity. Qed.
 
 (* { first { detail {text} extra {text} ... @defer { detail {note} extra {note} } } }: the fragment's fields
    surface in first.detail and first.extra; the first one is recorded *)
@@ -206,13 +262,46 @@ Definition ex_schema2 : schema :=
 Definition ex_chains2 : list (list anc) :=
   [ [AOther; AField None b_first; AField None b_detail]; [AOther; AField None b_first; AField None b_extra] ].
 
-Lemma anchor_refuted_exists : exists s root chains,
+Lemma anchor_v0_refuted_exists : exists s root chains,
   forallb (chain_typed s root) chains = true /\
   forallb (no_narrowing s root) chains = true /\
-  anchor_ok_b (collector_path s root chains) chains = false.
+  anchor_ok_b (collector_path_v0 s root chains) chains = false /\
+  anchor_ok_b (collector_path s root chains) chains = true.
 Proof. exists ex_schema2, b_Query, ex_chains2. vm_compute. repeat split; reflexivity. Qed.
 
-Lemma anchor_consistent_partial : forall s root chain,
-  prefix_b (defer_path s root chain) (candidate chain) = true /\
-  anchor_ok_b (collector_path s root [chain]) [chain] = true.
-Proof. intros s root chain. split; [apply defer_path_prefix | apply anchor_single]. Qed.
+(* symptom (b), still open: { maybe {id} ... @defer { maybe {name} ... @defer { first {id} } } } -- the outer
+   fragment's only top-level field is also selected outside: its fields sit in the selection set of [maybe],
+   the nested fragment's in the root selection set: the parent's path is not a prefix of the child's *)
+Definition b_maybe : bytes := [109;97;121;98;101]%N.
+Definition ex_schema3 : schema :=
+  [ {| td_name := b_Query; td_fields := [ {| fd_name := b_first; fd_list := false; fd_base := b_Item |};
+                                           {| fd_name := b_maybe; fd_list := false; fd_base := b_Item |} ] |};
+    {| td_name := b_Item; td_fields := [] |} ].
+Lemma parent_prefix_refuted_exists : exists s root parent_chains child_chains,
+  forallb (chain_typed s root) (parent_chains ++ child_chains) = true /\
+  prefix_b (collector_path s root parent_chains) (collector_path s root child_chains) = false.
+Proof. exists ex_schema3, b_Query, [[AOther; AField None b_maybe]], [[AOther]]. vm_compute. split; reflexivity. Qed.
+
+(* ---- several selection sets: the checker and the model = specification statement lift ---- *)
+Lemma desc_paths_ok_sound : forall s root chains impl,
+  desc_paths_ok_b s root chains impl = true <-> impl = spec_collector_path s root chains.
+Proof. intros. unfold desc_paths_ok_b. apply path_eqb_eq. Qed.
+
+Lemma fold_ext : forall (f g : list anc -> list bytes) r acc,
+  (forall c, In c r -> f c = g c) ->
+  fold_left (fun a c => common_prefix a (f c)) r acc = fold_left (fun a c => common_prefix a (g c)) r acc.
+Proof.
+  intros f g r. induction r as [|c r IH]; intros acc H; simpl; auto.
+  rewrite (H c) by (left; reflexivity). apply IH. intros c' Hc. apply H. right. exact Hc.
+Qed.
+
+Lemma collector_truncated_partial : forall s root chains,
+  (forall c, In c chains -> chain_typed s root c = true /\ no_narrowing s root c = true) ->
+  collector_path s root chains = spec_collector_path s root chains.
+Proof.
+  intros s root [|c r] H; simpl; auto.
+  assert (E : forall c', In c' (c :: r) -> defer_path s root c' = spec_path s root c').
+  { intros c' Hc. destruct (H c' Hc) as [Ht Hn]. apply (truncated_partial s root c' Ht Hn). }
+  rewrite (E c) by (left; reflexivity).
+  apply fold_ext. intros c' Hc. apply E. right. exact Hc.
+Qed.
